@@ -65,6 +65,8 @@ Inductive sk :=
 | ReturnErr                                    (* return ..., <an error known to be non-nil>     *)
 | Pure                                         (* an error variable is assigned by a call that is
                                                   not in the skeleton: nil or not                *)
+| ArgOk | ArgErr                               (* the next Fn is passed nil / a non-nil error for
+                                                  its error parameter                            *)
 | Unknown (what : string).                     (* a construct the translator does not understand *)
 
 Definition block := list sk.
@@ -114,7 +116,7 @@ Inductive rsk :=
 | RRun (i : nat) (inherit : list string)
 | RIf (c : cond) (th el : list rsk)
 | RLoop (body : list rsk)
-| RReturn | RReturnOk | RReturnErr | RPure
+| RReturn | RReturnOk | RReturnErr | RPure | RArgOk | RArgErr
 | RDead.
 
 Fixpoint index_of (n : string) (t : table) : nat :=
@@ -134,6 +136,8 @@ Fixpoint resolve (t : table) (s : sk) : rsk :=
   | ReturnOk => RReturnOk
   | ReturnErr => RReturnErr
   | Pure => RPure
+  | ArgOk => RArgOk
+  | ArgErr => RArgErr
   | Unknown _ => RDead
   end.
 
@@ -148,8 +152,10 @@ Definition resolve_table (t : table) : rtable := map (fun nb => map (resolve t) 
    from the enclosing function).  Conditions are evaluated per component, CErr being false
    on the ok component and true on the err component; what stays undetermined goes both ways;
    a loop runs any number of times (least fixpoint); a call of a tracked function is its
-   body, and the callee's ReturnOk / ReturnErr / Return decide the component the caller
-   continues in; after an effect, an If, a Loop or a Pure both components are possible;
+   body (entered in the caller's state, so that ArgOk / ArgErr in front of the call decide the
+   callee's test of its error parameter), and the callee's ReturnOk / ReturnErr / Return
+   decide the component the caller continues in; after an effect, an If, a Loop or a Pure
+   both components are possible;
    Unknown is a dead end.  [fuel] bounds the call depth plus the loop iterations. *)
 (* for every kind that occurs in the input, the set of positions at which it occurs *)
 Fixpoint add_mask (k : kind) (bit : N) (m : list (kind * N)) : list (kind * N) :=
@@ -204,20 +210,20 @@ Section Accepts.
                          let '(n2, r2) := blk env ev r n1 in
                          (n2, join r1 r2)
                      end in
-        (* a callee: entered with both components, its returns fall through in the caller *)
-        let callee (env : string -> bool) (ev : string) (b : list rsk) : st * st :=
-          let '(n, r) := blk env ev b (both (all P)) in
+        (* a callee: its returns fall through in the caller *)
+        let callee (env : string -> bool) (ev : string) (b : list rsk) (P : st) : st * st :=
+          let '(n, r) := blk env ev b P in
           ((N.lor (all n) (fst r), N.lor (all n) (snd r)), st0) in
         match s with
         | RCall k => (both (N.double (N.land (all P) (get_mask (subst_ev ev k) masks))), st0)
         | RFn i arg =>
             match nth_error t i with
-            | Some b => callee env (if String.eqb arg "" then ev else arg) b
+            | Some b => callee env (if String.eqb arg "" then ev else arg) b P
             | None => (st0, st0)
             end
         | RRun i inh =>
             match nth_error t i with
-            | Some b => callee (inherit_env env inh) "" b
+            | Some b => callee (inherit_env env inh) "" b (both (all P))
             | None => (st0, st0)
             end
         | RIf c th el =>
@@ -236,6 +242,8 @@ Section Accepts.
         | RReturnOk => (st0, (all P, 0%N))
         | RReturnErr => (st0, (0%N, all P))
         | RPure => (both (all P), st0)
+        | RArgOk => ((all P, 0%N), st0)
+        | RArgErr => ((0%N, all P), st0)
         | RDead => (st0, st0)
         end
     end.
